@@ -341,8 +341,11 @@ ASTNode *DeclarationParser::parseFunctionDeclarationAfterName(
             param->is_const = param_parsed.is_const;
             // ポインタのconst修飾を設定
             param->is_pointer_const_qualifier = param_parsed.is_pointer_const;
+            // parseType() は `const T*` に対して is_pointee_const を立てる
+            // （is_const は非ポインタ型のみ）
             param->is_pointee_const_qualifier =
-                param_parsed.is_const && param_parsed.is_pointer;
+                param_parsed.is_pointee_const ||
+                (param_parsed.is_const && param_parsed.is_pointer);
             if (param_parsed.is_array) {
                 param->array_type_info = param_parsed.array_info;
                 param->is_array = true;
